@@ -437,6 +437,8 @@ def monitor(ops, tr):
             nh_ok[op[2]] = True
         for s, st in states.items():
             slots[s] = st
+            if st is not None and not sane(st["ranges"]):
+                nh_ok[s] = False      # values at the top of unsigned long: hostrange_empty misreads hi == ULONG_MAX (outside the quantifier)
             if st is not None and nh_ok[s] and sane(st["ranges"]):
                 checks += 1
                 if st["nhosts"] != state_size(st["ranges"]):
